@@ -429,3 +429,5 @@ CHECKS["C09"]["rule"] += (" Simultaneity layer (TestVF_C09_Simultaneous): 4-8 ta
                           "of the rounds), so several probe results flip targets at one virtual instant; the probe transport hands answers of one instant to the "
                           "proxy at the same real moment (spin rendezvous). After each round exactly the targets whose latest probe succeeded receive requests "
                           "(503 when none), and each of them does. Non-trivial there = two or more rounds in which at least two targets changed together.")
+
+CHECKS["C13"]["rule"] += " Response framing also includes a chunked body followed by a trailer field, which must reach the client (as a trailer; among the headers when the response is buffered)."
